@@ -12,7 +12,9 @@ NAMES_KW = [b'endx', b'_if', b'nilly', b'android', b'do_', b'format', b'notes', 
             b'inx', b'returns', b'e', b'e5', b'x0b1', b'p']
 NAMES_GLYPH = [b'\x8e', b'\x97x', b'x\x83', b'\x80\xff', b'end\x8b', b'\x8bend', b'in\x80', b'or\xff', b'_\x99_',
                b'do\x91if', b'\xe3\x81']
-NAMES = NAMES_PLAIN + NAMES_KW + NAMES_GLYPH + [b'?']
+# glyph identifiers whose bytes coincide with byte-order marks of Unicode text files (P8SCII code is not Unicode)
+NAMES_SIGNATURE = [b'\xef\xbb\xbf', b'\xef\xbb\xbfx', b'\xff\xfe', b'\xfe\xffq']
+NAMES = NAMES_PLAIN + NAMES_KW + NAMES_GLYPH + NAMES_SIGNATURE + [b'?']
 
 NUM_DEC = [b'0', b'1', b'42', b'007', b'65535', b'32767']
 NUM_FRAC = [b'1.5', b'0.25', b'5.', b'.5', b'.125', b'10.0', b'3.14159']
@@ -62,7 +64,7 @@ def atom(ch):
     if k == 13:
         return ch.pick(SYMBOLS[:20]), 'symbol'
     if k == 14:
-        return ch.pick(NAMES_GLYPH + NAMES_KW), 'name'
+        return ch.pick(NAMES_GLYPH + NAMES_KW + NAMES_SIGNATURE), 'name'
     return ch.pick(NUM_EXP + NUM_HEX + NUM_BIN), 'number'
 
 
@@ -84,7 +86,7 @@ def representatives():
     for s in SYMBOLS:
         reps.append((s, 'sym:' + s.decode()))
     for grp, name in ((NAMES_PLAIN[:2], 'name'), (NAMES_KW[:3] + [b'e', b'e5', b'p'], 'name_kw'),
-                      (NAMES_GLYPH[:4] + [b'end\x8b', b'\x8bend'], 'name_glyph'), ([b'?'], 'qmark'),
+                      (NAMES_GLYPH[:4] + [b'end\x8b', b'\x8bend'] + NAMES_SIGNATURE[:3], 'name_glyph'), ([b'?'], 'qmark'),
                       (KEYWORDS, 'keyword'), (NUM_DEC[:2], 'num_dec'), ([b'5.', b'1.5'], 'num_frac'),
                       ([b'.5'], 'num_leading_dot'), (NUM_EXP[:6], 'num_exp'), (NUM_HEX[:6], 'num_hex'),
                       (NUM_BIN[:5], 'num_bin'), (STRINGS_DQ[:3], 'str_dq'), (STRINGS_SQ[:2], 'str_sq'),
